@@ -163,8 +163,10 @@ def layered_expr(rnd, nlev=None):
     rules = []
     def R(lhs, rhs):
         rules.append(dict(lhs=lhs, rhs=rhs, prec=None, c=len(rules) % 10, coef=[(3 * i + len(rules)) % 9 + 1 for i in range(len(rhs))]))
+    wrap = rnd.random() < 0.4
     for lv in range(nlev):
-        for _ in range(rnd.choice([1, 2, 3, 3, 4])):
+        # a layer may have no operator at all (a pure unit rule, as in  prog : expr ;  expr : term)
+        for _ in range(rnd.choice([0, 1, 2, 3, 3, 4])):
             if ops:
                 R(lv, [('n', lv), T(ops.pop()), ('n', lv + 1)])
         R(lv, [('n', lv + 1)])
@@ -172,7 +174,12 @@ def layered_expr(rnd, nlev=None):
     if ops and rnd.random() < 0.6:
         R(nlev, [T(ops.pop()), ('n', nlev)])
     R(nlev, [ident])
-    return dict(terms=terms, nonterms=nonterms, precs=[], rules=rules, start=0)
+    start = 0
+    if wrap:
+        nonterms.append(dict(name='prog', tag='v0'))
+        R(len(nonterms) - 1, [('n', 0)])
+        start = len(nonterms) - 1
+    return dict(terms=terms, nonterms=nonterms, precs=[], rules=rules, start=start)
 
 
 def ring_grammar(rnd, k=None, nullable=False):
@@ -271,6 +278,7 @@ CURATED = {
     'ring2_nullable': ('S: A u | z B v ; A: a B | ; B: b A | f', ()),
     # one item set {B -> p q t . , C -> t . u} reached from two left contexts, through states whose kernel items arrive
     # in a different order (rule numbering: A < X < B < Y < C)
+    'unit_term3': ('P: E ; E: T ; T: T * F | T / F | T % F | F ; F: ( E ) | - F | id', ()),
     'expr3': ('E: E + T | E - T | T ; T: T * F | T / F | T % F | F ; F: ( E ) | - F | id', ()),
     'two_paths': ('A: q C ; X: p A ; B: p q t ; Y: p q C ; C: t u ; S: k X | k B | l Y | l B', ()),
 }
